@@ -33,6 +33,10 @@ struct St {
     blocked_streak: usize,
     labels: Vec<&'static str>,
     preemptions: u64,
+    /// label of the yield point each thread is parked at
+    last_label: Vec<&'static str>,
+    /// thread is waiting to acquire the lock for writing (its try_write failed)
+    writer_waiting: Vec<bool>,
 }
 
 pub struct Sched {
@@ -88,8 +92,18 @@ pub fn conc_yield(label: &'static str, blocked: bool) -> bool {
 }
 
 impl St {
+    /// std's RwLock on Linux prefers writers: while a writer waits, a new read acquisition queues
+    /// behind it. A thread parked in front of a *read* acquisition is therefore not runnable while
+    /// another thread waits to write (this is what turns a recursive read lock into a deadlock).
+    fn behind_writer(&self, t: usize) -> bool {
+        self.last_label[t] == "rwlock.read" && (0..self.n).any(|w| w != t && !self.finished[w] && self.writer_waiting[w])
+    }
+
     fn pick(&mut self, me: usize) -> usize {
-        let mut cands: Vec<usize> = (0..self.n).filter(|t| !self.finished[*t] && !self.blocked[*t]).collect();
+        let mut cands: Vec<usize> = (0..self.n).filter(|t| !self.finished[*t] && !self.blocked[*t] && !self.behind_writer(*t)).collect();
+        if cands.is_empty() {
+            cands = (0..self.n).filter(|t| !self.finished[*t] && !self.behind_writer(*t)).collect();
+        }
         if cands.is_empty() {
             cands = (0..self.n).filter(|t| !self.finished[*t]).collect();
         }
@@ -153,6 +167,8 @@ impl Sched {
                 blocked_streak: 0,
                 labels: vec![],
                 preemptions: 0,
+                last_label: vec![""; n],
+                writer_waiting: vec![false; n],
             }),
             cv: Condvar::new(),
         })
@@ -167,6 +183,8 @@ impl Sched {
         if st.labels.len() < 64 {
             st.labels.push(label);
         }
+        st.last_label[me] = label;
+        st.writer_waiting[me] = blocked && label == "rwlock.write";
         if blocked {
             st.blocked[me] = true;
             st.blocked_streak += 1;
@@ -207,6 +225,8 @@ impl Sched {
     fn finish(&self, me: usize) {
         let mut st = self.m.lock().unwrap();
         st.finished[me] = true;
+        st.writer_waiting[me] = false;
+        st.last_label[me] = "";
         for b in st.blocked.iter_mut() {
             *b = false;
         }
@@ -361,7 +381,8 @@ pub fn run_schedule(cfg: &ConcCfg, sched_seed: u64, pct: Option<usize>, replay: 
             }
         }
     }
-    let r = results.lock().unwrap().clone();
+    // after an abort the abandoned threads run uncontrolled: their results are not part of the run
+    let r = if aborted.is_some() { vec![vec![]; n] } else { results.lock().unwrap().clone() };
     Ok(ConcRun { results: r, final_hash, final_desc, decisions: st.decisions.clone(), abort: aborted, preemptions: st.preemptions, labels: st.labels.clone(), post_ok })
 }
 
